@@ -560,6 +560,7 @@ func (push *Push) addTask(subscribe *types.PushSubscribeReq) {
 }
 
 func trigeRun(run chan struct{}, sleep time.Duration, name string) {
+	sleep = verifPushSleep(sleep)
 	chainlog.Info("trigeRun", name, "name", "sleep", sleep, "run len", len(run))
 	if sleep > 0 {
 		time.Sleep(sleep)
@@ -580,6 +581,7 @@ func (push *Push) runTask(input *pushNotify) {
 		var err error
 
 		subscribe := in.subscribe
+		verifPushGate("start", in)
 		lastProcessedseq := push.getLastPushSeq(subscribe)
 		atomic.StoreInt32(&in.status, running)
 
